@@ -233,9 +233,11 @@ def run_shard(sh, params):
     sh.count("build:" + variant)
     tier = sh.tier
 
+    held = {}          # results of the previous sequence: (references, copies)
     for fam, seq in _sequences(sh, params, tier):
         x = np.asarray(seq, dtype=float)
         L = x.size
+        x_keep = x.copy()
         case = {"variant": variant, "family": fam,
                 "seq": x.tolist() if L <= 40 else
                 {"len": int(L), "sha": core.digest(x.tolist())}}
@@ -254,6 +256,17 @@ def run_shard(sh, params):
         if L <= 300:
             impls["py-numba-stub"] = (nb_rain.rainflow(x),
                                       *nb_rain.rainflow(x, getoffsets=True))
+        # call history: tables handed out for the PREVIOUS sequence must not have changed
+        # while this one was counted (results that are views of a reused work buffer), and
+        # the record itself must come back untouched
+        sh.count("mon:earlier-results-unmutated")
+        for name, (refs, copies, pcase) in held.items():
+            if any(np.asarray(a).tobytes() != b.tobytes() for a, b in zip(refs, copies)):
+                sh.violation("earlier-results-unmutated", pcase, {"impl": name}, tags)
+        held = {name: (res, [np.array(a, copy=True) for a in res], case)
+                for name, res in impls.items() if L <= 3000}
+        sh.check_equal("input-unmutated", bool(x.tobytes() == x_keep.tobytes()), True,
+                       case, tags)
         for name, (rf1, rf2, os2) in impls.items():
             sh.check_equal(f"{name}-vs-astm-table", np.asarray(rf1, float), want_rf,
                            case, tags)
